@@ -458,6 +458,8 @@ private:
         _allocated_bytes = total_allocated_size_in_bytes(dimensions);
         if (_allocated_bytes == 0)
         {
+            // nothing to allocate, but the image still has the requested (empty) dimensions
+            _view = view_t(dimensions, typename view_t::locator());
             return;
         }
 
@@ -479,6 +481,8 @@ private:
         _allocated_bytes = total_allocated_size_in_bytes( dimensions );
         if (_allocated_bytes == 0)
         {
+            // nothing to allocate, but the image still has the requested (empty) dimensions
+            _view = view_t(dimensions, typename view_t::locator());
             return;
         }
 
